@@ -669,8 +669,25 @@ func batcherMonitor(lines, outs []string, m *Model) []Violation {
 			lastOpen = outs[i]
 		}
 	}
+	// C16: replay the ops on the batcher model; a tick whose observed flush order the decision rules
+	// do not allow (a due batch kept, a smaller batch flushed before a larger one, flushing continued
+	// below the limit) is a violation with this history as the replay
+	var tickViolation []Violation
+	for i, l := range lines {
+		if i >= len(outs) {
+			break
+		}
+		o, _ := m.Do(l)
+		if strings.HasPrefix(l, "batcher tick") && strings.HasPrefix(o, "valid=false") {
+			tickViolation = []Violation{{"C16", "a tick flushed the open batches in a way the flush rules do not allow (due batch kept, or memory-pressure flush not largest-first / not stopping below the limit): " + l, ""}}
+			break
+		}
+		if o != outs[i] && !strings.HasPrefix(l, "batcher open") {
+			break // model and implementation diverged earlier: the model's verdict on later ticks means nothing
+		}
+	}
 	if !sawCfg || len(lines) < 2 || !strings.HasPrefix(lines[len(lines)-1], "batcher open") || len(outs) != len(lines) {
-		return nil // the statements are about a completed history that ends with the open set
+		return tickViolation // the other statements are about a completed history that ends with the open set
 	}
 	m.Do("batchermon open " + lastOpen)
 	v, _ := m.Do("batchermon verdict")
@@ -682,9 +699,9 @@ func batcherMonitor(lines, outs []string, m *Model) []Violation {
 		}
 	}
 	if v == "bad-op" || kv["fatal"] {
-		return nil
+		return tickViolation
 	}
-	var vs []Violation
+	vs := tickViolation
 	if !kv["once"] {
 		vs = append(vs, Violation{"C04", "per partition key, dispatched ++ open records differ from the accepted input records (lost, duplicated or reordered) (" + v + ")", ""})
 		vs = append(vs, Violation{"C05", "record order per partition key is not the delivery order (" + v + ")", ""})
